@@ -61,6 +61,14 @@ pub fn begin_op(clone_panic_at: Option<u32>, drop_panic_at: Option<u32>) {
         l.fired = false;
     });
 }
+/// number of `Clone::clone` calls on elements since `begin_op` / the last `reset_clone_calls`
+pub fn clone_calls() -> u32 {
+    LEDGER.with(|l| l.borrow().clone_calls)
+}
+pub fn reset_clone_calls() {
+    LEDGER.with(|l| l.borrow_mut().clone_calls = 0);
+}
+
 pub fn disarm() -> bool {
     LEDGER.with(|l| {
         let mut l = l.borrow_mut();
